@@ -24,3 +24,6 @@ def run(ctx, rep):
     more4.rule_mem_bytes(mod, rep)
     from ..rules import more5
     more5.rule_transpose(mod, rep)
+    from ..rules import unionast
+    unionast.rule_union_role(ctx, rep)
+    more5.rule_principal_walk(mod, rep)
